@@ -125,6 +125,10 @@ func c15DirExec(c c15DirCase, st *lab.Stats) *lab.Fail {
 				switch op {
 				case "bind":
 					_, _ = conn.SimpleBind(&ldap.SimpleBindRequest{Username: c20UserDN(ci % 4), Password: "pw", AllowEmptyPassword: true})
+				case "bind-anon":
+					_, _ = conn.SimpleBind(&ldap.SimpleBindRequest{Username: "", Password: "", AllowEmptyPassword: true})
+				case "bind-wrong":
+					_, _ = conn.SimpleBind(&ldap.SimpleBindRequest{Username: c20UserDN(ci % 4), Password: "nope", AllowEmptyPassword: true})
 				case "search-users":
 					_, _ = conn.Search(&ldap.SearchRequest{BaseDN: c20UserBase, Scope: ldap.ScopeWholeSubtree, Filter: "(cn=u01)"})
 				case "search-groups":
@@ -179,7 +183,7 @@ func TestC15Directory(t *testing.T) {
 			return c15DirCase{
 				Clients:    rapid.IntRange(2, 8).Draw(t, "clients"),
 				Rounds:     rapid.IntRange(5, 40).Draw(t, "rounds"),
-				ClientOps:  rapid.SliceOfN(rapid.SampledFrom([]string{"bind", "search-users", "search-groups", "search-dn", "search-sid", "add", "modify", "delete"}), 3, 12).Draw(t, "clientops"),
+				ClientOps:  rapid.SliceOfN(rapid.SampledFrom([]string{"bind", "bind-anon", "bind-wrong", "search-users", "search-groups", "search-dn", "search-sid", "add", "modify", "delete"}), 3, 12).Draw(t, "clientops"),
 				SetterOps:  rapid.SliceOfN(rapid.SampledFrom([]string{"setusers", "setgroups", "setcontrols", "settokengroups", "setanon", "getters"}), 1, 6).Draw(t, "setterops"),
 				Transports: rapid.SliceOfN(rapid.SampledFrom([]string{"plain", "tls", "starttls"}), 1, 3).Draw(t, "transports"),
 			}
